@@ -26,6 +26,9 @@ def make(kind, a, b=''):
     text = esc(a) + '.*' + esc(b)
   elif kind == 'segment':
     text = '^' + esc(a) + r'\.[^.]+\.' + esc(b) + '$'
+  elif kind == 'alt':
+    # a leading ^ that anchors only the first alternative, a trailing $ that anchors only the second
+    text = '^' + esc(a) + '|' + esc(b) + '$'
   elif kind == 'anything':
     text = '.*'
   else:
@@ -56,6 +59,8 @@ def matches(p, name, ignore_case=False):
       return False
     mid = name[len(a) + 1:len(name) - len(b) - 1]
     return len(name) >= len(a) + len(b) + 3 and mid != '' and '.' not in mid
+  if k == 'alt':
+    return name.startswith(a) or name.endswith(b)
   if k == 'anything':
     return True
   raise ValueError(k)
@@ -72,9 +77,9 @@ def literals():
 
 @st.composite
 def patterns(draw):
-  kind = draw(st.sampled_from(['lit', 'lit', 'prefix', 'prefix', 'suffix', 'exact', 'dotstar', 'segment', 'anything']))
+  kind = draw(st.sampled_from(['lit', 'lit', 'prefix', 'prefix', 'suffix', 'exact', 'dotstar', 'segment', 'anything', 'alt']))
   a = draw(literals())
-  b = draw(literals()) if kind in ('dotstar', 'segment') else ''
+  b = draw(literals()) if kind in ('dotstar', 'segment', 'alt') else ''
   if kind == 'lit' and draw(st.integers(0, 5)) == 0:
     a = draw(st.sampled_from(['.', '..', '.a', 'a.']))
   return make(kind, a, b)
@@ -88,6 +93,8 @@ def names_for(pats):
     k = p['kind']
     if k in ('lit', 'prefix', 'suffix', 'exact'):
       pool += [a, a + '.tail', 'head.' + a, 'head.' + a + '.tail', a[:-1] or 'q', a.upper(), a.replace('.', '_')]
+    elif k == 'alt':
+      pool += [a, a + '.tail', 'head.' + b, 'head.' + a, b + '.tail', b, 'x.' + a + '.' + b, a[:-1] or 'q']
     elif k == 'dotstar':
       pool += [a + b, a + '.mid.' + b, b + '.x.' + a, a, 'pre.' + a + 'zz' + b + '.post']
     elif k == 'segment':
@@ -103,5 +110,7 @@ FREE_POOL = [r'(?:^|\.)([^.]+)\.\1(?:\.|$)', r'(\d)\1', r'^(a|x)?(?(1)\.|b)', r'
              r'(?i)CPU', r'a.c', r'^servers\.[^.]*\.load$', r'x?y+', r'\bprod\b', r'^$', r'.',
              # rule texts whose ends look like a redundant '.*' but are not
              r'^carbon\.*', r'db\.\.*', r'.*?\.prod\.', r'.*+\.count$', r'^web.*?', r'(?:a|b).*', r'.*', r'^.*$', r'cpu.*\Z',
-             r'\..*\.', r'[.]*$', r'.{3}']
+             r'\..*\.', r'[.]*$', r'.{3}',
+             # a leading ^ that anchors only the first alternative
+             r'^carbon\.|\.count$', r'^web|load$', r'^db\.|^servers\.|cpu', r'(^a\.)|b$']
 INVALID_POOL = ['(', '[a', '*a', 'a**', '(?P<x', '\\', '(?z)', 'a{2,1}', '[z-a]', ')']
